@@ -245,6 +245,17 @@ def rule_postfail(ctx):
         raise AnalysisError("C17.POSTFAIL: _sendMsgThroughSocket anchors not found")
     must_pass(ctx, R, fs, g, hn, raises, shut, "send failure during handshake: shutdown before raising peer alert",
               "a send failure during the handshake raises the peer's alert without shutting down")
+    # ... and the peer's pending alert is read BEFORE the socket is shut down (afterwards the read
+    # fails with a local error and what the caller sees depends on how the peer's bytes were chunked)
+    reads = consumes_of(g, "_getNextRecord")
+    if not reads:
+        raise AnalysisError("C17.POSTFAIL: _getNextRecord consumption not found in _sendMsgThroughSocket")
+    seen = g.reach(hn, blocked=reads)
+    early = [x for x in shut if x.id in seen and x.id in g.reach_back(reads)]
+    ctx.check(R, not early, fs.qname, "send failure during handshake: the peer's alert is read before _shutdown",
+              "after a failed handshake write the connection is shut down before the pending record (the peer's "
+              "alert) is read: the read then hits a closed socket and the caller gets a local error instead of "
+              "the peer's alert, depending on transport timing", fs.loc(early[0].ast) if early else fs.loc())
     t = [x for x in g.nodes if x.kind == "test" and norm(x.expr) == "msg.contentType == ContentType.handshake"]
     ok = bool(t) and any(n.kind == "raise" and n.ast.exc is None for n in g.nodes
                          if n.id in g.reach(g.succ_on(t[0], "F"), follow_exc=False))
